@@ -191,8 +191,8 @@ new.append(entry("C17",
 
 ROLES = ["Bind", "Broadcast", "Listen", "Controller"]
 new.append(entry("C15",
-    functions=["types.Parse%sAddr" % r for r in ROLES] + ["types.lemma%sAddrText" % r for r in ROLES],
-    scope=[r"^types\.Parse\w+Addr#", r"^types\.lemma\w+AddrText#"],
+    functions=["types.Parse%sAddr" % r for r in ROLES] + ["types.lemma%sAddrText" % r for r in ROLES] + ["types.(%sAddr).String" % r for r in ("Bind", "Broadcast", "Listen")],
+    scope=[r"^types\.Parse\w+Addr#", r"^types\.lemma\w+AddrText#", r"^types\.\(\w+Addr\)\.String#"],
     pinned_file="pins_types.json", pinned_labels=["contract", "macro"],
     replay=[{"match": "types.", "driver": "types_addr", "pkg": "types", "case": "all"}],
     assumptions=["strings are abstract; the grammar of a.b.c.d[:port] is carried by the predicates addr.isQuadPort / addr.isQuad / addr.hasQuad with the values addr.quadOf / addr.portOf (spec/addr.spec)",
@@ -208,7 +208,8 @@ new.append(entry("C14", level="other",
                "types.(Date).MarshalJSON", "types.(*Date).UnmarshalJSON", "types.ParseDate",
                "types.lemmaTextHHmm", "types.lemmaJSONHHmm", "types.lemmaJSONControlState", "types.lemmaJSONDate", "types.lemmaJSONDateTime",
                "types.(*Weekdays).UnmarshalJSON", "types.(*Segments).UnmarshalJSON", "types.(*PIN).UnmarshalJSON"] +
-              ["types.Parse%sAddr" % r for r in ROLES] + ["types.lemma%sAddrText" % r for r in ROLES],
+              ["types.Parse%sAddr" % r for r in ROLES] + ["types.lemma%sAddrText" % r for r in ROLES] + ["types.lemma%sAddrJSON" % r for r in ROLES] +
+              ["types.(%sAddr).String" % r for r in ("Bind", "Broadcast", "Listen")],
     scope=[r"^types\."],
     pinned_file="pins_types.json", pinned_labels=["contract", "macro"],
     bounded_checks=[{"match": "bounded:types_text:composite", "driver": "types_text", "pkg": "types", "case": "composite",
@@ -230,7 +231,7 @@ new.append(entry("C14", level="other",
              "(all 13 values, by name and number, JSON and TSV), firmware version (all 65536), weekdays (all 128 sets), MAC address, card format, and of Task / TimeProfile / Card documents over a small grid of in-domain values"],
     not_decided=["by contracts (a bounded stand-in runs instead, see bounded_parts): Card, TimeProfile, Task (their UnmarshalJSON delegates to encoding/json's reflective struct/map decoding, which has no contract in the engine); for Weekdays and Segments only 'decodes into a nil map without panicking and leaves a map' is decided, not the value",
                  "DateTime JSON for values held in a zone other than the process zone or UTC (their abbreviation means nothing to the decoding process: the instant is not kept - by design of the format), and the reject side of DateTime JSON; Version (fmt.Sscanf), MacAddress (net.ParseMAC), TaskType by name and CardFormat (case-folding regular-expression rewriting), the accept side of PIN JSON (variable-width decimal text; the reject side - more than six characters, a non-digit - and the blank PIN are decided), SystemTime text form",
-                 "JSON forms of the address types (the text round trip is decided: lemma<Role>AddrText)"],
+                 "the reject side of the address types' JSON forms beyond what the parsers reject (C15); their round trip IS decided (lemma<Role>AddrJSON, with fmt's %v of an address value dispatched to its String method, which is under contract)"],
     explanation="Decided for the leaf types whose parser is repository code over a string: HH:mm (String/HHmmFromString and JSON: accepted exactly for dd:dd with hours <= 24, minutes <= 59, not 24:mm with mm != 0; everything else of that JSON-string form rejected; decode(encode(v)) == v), door control state JSON (exactly the three names; anything else rejected), Date JSON and text (blank <-> zero value, impossible dates rejected, civil value kept whenever the day exists in the zone), DateTime JSON (decode(encode(v)) is the same instant, to the second, for every v held in the process zone or in UTC, in every process zone - under the assumed model of zone designations), and the four address types' text forms. Level 'other': the property lists more types than contracts can reach."))
 
 
